@@ -30,6 +30,11 @@ def directed_cases():
     for k, sc in enumerate([1e9, 1e9, 1e6, 1e-4, 1e9, 1e3]):
         cases.append(("method", {"cls": ["SmoothStronglyConvexFunction", "SmoothConvexFunction", "ConvexLipschitzFunction"][k % 3],
                                  "mode": "single", "ic_scale": sc, "ic": "dist"}, "d:scaled%d" % k))
+    # ... and with the configuration pinned (dual mode, accurate solver): the multiplier of the rescaled constraint is ~1e-9
+    for k, sc in enumerate([1e9, 1e9, 1e9, 1e10, 1e8, 1e9]):
+        cases.append(("method", {"cls": ["SmoothStronglyConvexFunction", "SmoothConvexFunction", "ConvexLipschitzFunction"][k % 3],
+                                 "mode": "single", "ic_scale": sc, "ic": "dist",
+                                 "cfg": {"mode": "dual", "solver": "CLARABEL", "wrapper": "cvxpy", "dimred": None}}, "d:scaled_dual%d" % k))
     for k in range(8):
         cases.append(("soup", {"same_name_lmis": True}, "d:same_name_lmis%d" % k))
     cases.append(("big", {"N": 11}, "d:big"))
@@ -104,8 +109,13 @@ def iter_cases(spec):
     dc = directed_cases()
     for i in spec.get("directed", []):
         fam, opts, tag = dc[i]
-        rng = random.Random("directed/%d" % i)
-        yield tag, rng, gen.gen_program(rng, fam, dict(opts))
+        opts = dict(opts)
+        force = opts.pop("cfg", None)
+        rng = random.Random("directed/%s" % tag)
+        prog = gen.gen_program(rng, fam, opts)
+        if force:
+            prog["force_cfg"] = force
+        yield tag, rng, prog
     for i in range(spec["n_random"]):
         rng = driver.case_rng(spec["seed"], spec["name"], i)
         yield "r%d" % i, rng, gen.gen_program(rng)
@@ -240,6 +250,11 @@ def run_generic(spec, judge, config_fn=None, max_viol=8, on_undecidable=None):
     else:
         for tag, rng, prog in iter_cases(spec):
             cfg = (config_fn or driver.random_config)(rng)
+            for k_, v_ in (prog.pop("force_cfg", None) or {}).items():
+                if v_ is None:
+                    cfg.pop(k_, None)
+                else:
+                    cfg[k_] = v_
             handle(tag, rng, prog, cfg)
     bd = driver.boundary()
     acc.extra["monitor_events"] = dict(bd.counts)
